@@ -164,6 +164,22 @@ def run(prog):
         # (a cached tail, a folded chain) is not understood here and is left undecided
         is_arg = t == ("param", 2) or (isinstance(t, tuple) and t and t[0] in ("field", "call") and
                                        t[0] == "call" and t[1].name in ("low", "high", "low_raw", "high_raw") and t[2] and strip(t[2][0]) == ("param", 2))
+        # SL4: the levels still to fill are current..total — the caller's bound, not the order's size.  A count of remaining
+        # levels taken from the order (`num_vars() - current`) fills levels the caller did not ask for whenever total is smaller
+        wrong_bound = None
+        if not done and not is_arg:
+            for x in mir.subterms(t):
+                if x[0] == "bin" and any(y == cur for y in mir.subterms(x)) and \
+                        not any(y == ("param", 4) for y in mir.subterms(x)) and \
+                        any(mir.is_call(y) and y[1].name in ("num_vars", "len") for y in mir.subterms(x)):
+                    wrong_bound = x
+                    break
+        if wrong_bound is not None:
+            out.append(inst("SL", "%s:return-as-is" % fn.npath + ("" if n_asis == 1 else "#%d" % n_asis), VIOLATION, fn, None,
+                            "a path fills `%s` levels below the current one: counted from the size of the order, not from the "
+                            "`total` the caller asked for — with total below the number of variables the result has nodes for "
+                            "levels outside the requested range (and two paths of one call disagree)" % show(wrong_bound)[:60]))
+            continue
         out.append(inst("SL", "%s:return-as-is" % fn.npath + ("" if n_asis == 1 else "#%d" % n_asis),
                         OK if done else (VIOLATION if is_arg else UNDECIDED), fn, None,
                         "the diagram is returned unchanged only when current >= total" if done else
@@ -174,7 +190,7 @@ def run(prog):
         raise CheckerError("SL3: no base-case return found in smooth_helper")
     # the Compl arm: neg(smooth_helper(Reg(node), current, total))
     # entry: smooth(bdd, n) = smooth_helper(bdd, 0, n)
-    sm = prog.find1(name="smooth", self_adt="builder::bdd::robdd::RobddBuilder", unit="rsdd-lib")
+    sm = prog.find1(name="smooth", self_adt="builder::bdd::robdd::RobddBuilder", unit="rsdd-lib", follow_defaults=False)
     r = strip(sm.terms.ret)
     cands = resolve_smooth(prog, r)
 
